@@ -6,6 +6,7 @@
      P2 dx dy x y i | P3 dx dy dz x y z i | Q3 dx dy dz x y z i     single points (big integers)
      FE lx ly lz hx hy hz              for_each
      IT2 dx dy | IT3 dx dy dz          iterator traversal
+     IO2 dx dy a b | IO3 dx dy dz a b  the other iterator members (jump_to, current, + - offset/iterator, --, ==, dimensions)
      AR dx dy dz n (x y z v)*n         ActualArray3D clear(0), n sets, then get over [-2,d+1]^3
      RP dx dy dz rx ry rz              Array3DRepeater over [-2, 2r+2)^3
      SH dx dy dz sx sy sz | SB dx dy dz lx ly lz hx hy hz | AC dx dy dz seed | MS dx dy dzs n seed
@@ -119,6 +120,51 @@ let () =
         let (after, ret) = preinc2 b in
         Printf.sprintf "post %s pre %s rf %s ret %s.%s" post pre pre
           (zs (zof (multidim_index_iterator2_current__ iZ after))) (zs (zof (multidim_index_iterator2_current__ iZ ret)))
+      | ["IO3"; dx; dy; dz; a; b] ->
+        (* the remaining iterator members through the GENERATED operators (ideal reading); prefix -- is hand-modelled like prefix ++ *)
+        let d = v3z (zi (ios dx)) (zi (ios dy)) (zi (ios dz)) and a = zi (ios a) and b = zi (ios b) in
+        let inj (z : z) : s = Obj.magic z in
+        let cur it = zs (zof (multidim_index_iterator3_current__ iZ it)) in
+        let it0 = multidim_index_iterator3_mk__v3ul iZ d in
+        let it1 = multidim_index_iterator3_jump_to__ul iZ it0 (inj a) in
+        let it2 = multidim_index_iterator3_op_add__ul iZ it1 (inj b) in
+        let other = multidim_index_iterator3_mk__v3ul_ul iZ d (inj b) in
+        let it3 = multidim_index_iterator3_op_add__multidim_index_iterator3 iZ it2 other in
+        let it4 = multidim_index_iterator3_op_sub__multidim_index_iterator3 iZ it3 other in
+        let it5 = multidim_index_iterator3_op_sub__ul iZ it4 (inj b) in
+        let it6 = multidim_index_iterator3_op_dec__i iZ it5 (inj Z0) in
+        let c7 = Z.sub (zof (multidim_index_iterator3_current__ iZ it6)) (zi 1) in
+        let it7 = multidim_index_iterator3_mk__v3ul_ul iZ d (inj c7) in
+        let bs x = if x then "1" else "0" in
+        let d2 = v3z (zi (ios dx + 1)) (zi (ios dy)) (zi (ios dz)) in
+        Printf.sprintf "D %s C %s E %s" (show_v3 (multidim_index_sequence3_dimensions__ iZ (multidim_index_sequence3_mk__v3ul iZ d)))
+          (cat [cur it0; cur it1; cur it2; cur it3; cur it4; cur it5; cur it6; zs c7; zs c7])
+          (bs (multidim_index_iterator3_op_eq__multidim_index_iterator3 iZ it7 (multidim_index_iterator3_mk__v3ul_ul iZ d (inj c7)))
+           ^ bs (multidim_index_iterator3_op_eq__multidim_index_iterator3 iZ it7 other)
+           ^ bs (multidim_index_iterator3_op_eq__multidim_index_iterator3 iZ it7 (multidim_index_iterator3_mk__v3ul_ul iZ d2 (inj c7)))
+           ^ bs (multidim_index_iterator3_op_ne__multidim_index_iterator3 iZ it7 (multidim_index_iterator3_mk__v3ul_ul iZ d (inj c7))))
+      | ["IO2"; dx; dy; a; b] ->
+        let d = v2z (zi (ios dx)) (zi (ios dy)) and a = zi (ios a) and b = zi (ios b) in
+        let inj (z : z) : s = Obj.magic z in
+        let cur it = zs (zof (multidim_index_iterator2_current__ iZ it)) in
+        let it0 = multidim_index_iterator2_mk__v2ul iZ d in
+        let it1 = multidim_index_iterator2_jump_to__ul iZ it0 (inj a) in
+        let it2 = multidim_index_iterator2_op_add__ul iZ it1 (inj b) in
+        let other = multidim_index_iterator2_mk__v2ul_ul iZ d (inj b) in
+        let it3 = multidim_index_iterator2_op_add__multidim_index_iterator2 iZ it2 other in
+        let it4 = multidim_index_iterator2_op_sub__multidim_index_iterator2 iZ it3 other in
+        let it5 = multidim_index_iterator2_op_sub__ul iZ it4 (inj b) in
+        let it6 = multidim_index_iterator2_op_dec__i iZ it5 (inj Z0) in
+        let c7 = Z.sub (zof (multidim_index_iterator2_current__ iZ it6)) (zi 1) in
+        let it7 = multidim_index_iterator2_mk__v2ul_ul iZ d (inj c7) in
+        let bs x = if x then "1" else "0" in
+        let d2 = v2z (zi (ios dx + 1)) (zi (ios dy)) in
+        Printf.sprintf "D %s C %s E %s" (show_v2 (multidim_index_sequence2_dimensions__ iZ (multidim_index_sequence2_mk__v2ul iZ d)))
+          (cat [cur it0; cur it1; cur it2; cur it3; cur it4; cur it5; cur it6; zs c7; zs c7])
+          (bs (multidim_index_iterator2_op_eq__multidim_index_iterator2 iZ it7 (multidim_index_iterator2_mk__v2ul_ul iZ d (inj c7)))
+           ^ bs (multidim_index_iterator2_op_eq__multidim_index_iterator2 iZ it7 other)
+           ^ bs (multidim_index_iterator2_op_eq__multidim_index_iterator2 iZ it7 (multidim_index_iterator2_mk__v2ul_ul iZ d2 (inj c7)))
+           ^ bs (multidim_index_iterator2_op_ne__multidim_index_iterator2 iZ it7 (multidim_index_iterator2_mk__v2ul_ul iZ d (inj c7))))
       | "AR" :: dx :: dy :: dz :: n :: rest ->
         let dx = ios dx and dy = ios dy and dz = ios dz in
         let a0 = actual_clear (actual_new (v3 (dx, dy, dz)) (zi 12345)) Z0 in
